@@ -164,6 +164,13 @@ class Oracle:
             return self.call(t[1], t[2], self.term_val(t[3], asg))
         if k == 'flat':
             return asg[('f', t[1])]
+        if k == 'concat':
+            # one value: all inner elements over all bindings of the operand's variable, in order
+            vs = sorted(term_vars(t[2]))
+            out = []
+            for combo in itertools.product(*[self.dom(v) for v in vs]):
+                out += self.items(self.term_val(t[2], dict(zip(vs, combo))))
+            return ('l',) + tuple(out)
         raise ValueError(t)
 
     @staticmethod
@@ -197,7 +204,12 @@ class Oracle:
 
     def rows(self):
         case = self.case
-        vids = [v[0] for v in case['vars']]
+        mentioned = set()
+        for c in (case.get('cond') or []):
+            mentioned |= cond_vars(c)
+        for t in case['sel']:
+            mentioned |= term_vars(t)
+        vids = [v[0] for v in case['vars'] if v[0] in mentioned]
         doms = [self.dom(v) for v in vids]
         flats = []
         for c in (case.get('cond') or []):
@@ -252,6 +264,8 @@ def term_flats(t):
         return term_flats(t[3])
     if k == 'flat':
         return term_flats(t[2]) + [(t[1], t[2])]
+    if k == 'concat':
+        return []
     raise ValueError(t)
 
 
@@ -288,6 +302,8 @@ def term_vars(t):
         return term_vars(t[3])
     if k == 'flat':
         return term_vars(t[2])
+    if k == 'concat':
+        return set()          # the operand's variable is aggregated away
     raise ValueError(t)
 
 
